@@ -36,7 +36,7 @@ type c03Cell struct {
 	Crl        string `json:"crl"` // none listed notlisted unavailable
 	CdpStrict  bool   `json:"cdp_strict"`
 	Storage    string `json:"storage"`
-	ChainShape int    `json:"chains"` // 0,1,2
+	ChainShape int    `json:"chains"`         // 0,1,2
 	NoOCSPSect bool   `json:"no_ocsp_config"` // the configuration has no ocsp_config section at all (JSON form)
 }
 
